@@ -55,7 +55,7 @@ pub trait Prop {
         false
     }
     fn max_restarts(&self) -> u32 {
-        40
+        12
     }
     fn can_be_exhaustive(&self, _tier: Tier) -> bool {
         false
